@@ -20,6 +20,15 @@ class DetectVarNames( ast.NodeVisitor ):
     self.globals = upblk.__globals__
     self.closure = { *upblk.__code__.co_freevars }
     self.locals  = { *upblk.__code__.co_varnames }
+    # Variables bound by a generator expression, a lambda or a nested
+    # function inside the block are locals of that nested scope
+    Q = [ upblk.__code__ ]
+    while Q:
+      code = Q.pop()
+      for const in code.co_consts:
+        if isinstance( const, type(code) ):
+          self.locals.update( const.co_varnames )
+          Q.append( const )
 
     if sys.version_info < (3,8,10000):
       self._get_full_name = self._get_full_name_up_to_py38
@@ -53,16 +62,16 @@ class DetectVarNames( ast.NodeVisitor ):
       elif isinstance( lower, ast.Name ):
         x = lower.id
         if   x in self.locals:  pass # a local of the block (e.g. a loop variable) shadows globals
-        elif x in self.globals: low = (False, x)
-        elif x in self.closure: low = (True, x)
+        elif x in self.closure: low = (True, x)   # enclosing scope first,
+        elif x in self.globals: low = (False, x)  # then the module
 
       if isinstance( upper, ast.Num ):
         up = node.slice.upper.n
       elif isinstance( upper, ast.Name ):
         x = upper.id
         if   x in self.locals:  pass # a local of the block (e.g. a loop variable) shadows globals
-        elif x in self.globals: up = (False, x)
-        elif x in self.closure: up = (True, x)
+        elif x in self.closure: up = (True, x)   # enclosing scope first,
+        elif x in self.globals: up = (False, x)  # then the module
 
       if low is not None and up is not None:
         slices.append( slice(low, up) )
@@ -87,8 +96,8 @@ class DetectVarNames( ast.NodeVisitor ):
         elif isinstance( v, ast.Name ):
           x = v.id
           if   x in self.locals:  pass # a local of the block (e.g. a loop variable) shadows globals
-          elif x in self.globals: n = (False, x)
-          elif x in self.closure: n = (True, x)
+          elif x in self.closure: n = (True, x)   # enclosing scope first,
+          elif x in self.globals: n = (False, x)  # then the module
         elif isinstance( v, ast.Call ): # int(x)
           for x in v.args:
             self.visit(x)
@@ -156,16 +165,16 @@ class DetectVarNames( ast.NodeVisitor ):
       elif isinstance( lower, ast.Name ):
         x = lower.id
         if   x in self.locals:  pass # a local of the block (e.g. a loop variable) shadows globals
-        elif x in self.globals: low = (False, x)
-        elif x in self.closure: low = (True, x)
+        elif x in self.closure: low = (True, x)   # enclosing scope first,
+        elif x in self.globals: low = (False, x)  # then the module
 
       if isinstance( upper, ast.Num ):
         up = node.slice.upper.n
       elif isinstance( upper, ast.Name ):
         x = upper.id
         if   x in self.locals:  pass # a local of the block (e.g. a loop variable) shadows globals
-        elif x in self.globals: up = (False, x)
-        elif x in self.closure: up = (True, x)
+        elif x in self.closure: up = (True, x)   # enclosing scope first,
+        elif x in self.globals: up = (False, x)  # then the module
 
       if low is not None and up is not None:
         slices.append( slice(low, up) )
@@ -190,8 +199,8 @@ class DetectVarNames( ast.NodeVisitor ):
         elif isinstance( v, ast.Name ):
           x = v.id
           if   x in self.locals:  pass # a local of the block (e.g. a loop variable) shadows globals
-          elif x in self.globals: n = (False, x)
-          elif x in self.closure: n = (True, x)
+          elif x in self.closure: n = (True, x)   # enclosing scope first,
+          elif x in self.globals: n = (False, x)  # then the module
         elif isinstance( v, ast.Call ): # int(x)
           for x in v.args:
             self.visit(x)
